@@ -14,7 +14,7 @@ func init() {
 	Runners["C07"] = fileRunner(RunC07)
 	harness.Specs["C07"] = &harness.PropSpec{
 		ID: "C07", Test: "TestC07", Kind: "file", Level: "exploration",
-		Quick: 12000, Thorough: 800000,
+		Quick: 12000, Thorough: 300000,
 		Rule: "twin execution of generated programs H;T;K (run A) and H;K (run B, plus B' as determinism control), T ending in Rollback, " +
 			"Close or a Commit that failed; compared: outcome/error kind of every step of K, every page id allocated in K, every byte read, capacity probes, " +
 			"and the user-visible allocator snapshot (data free list, data end marker, metaTotal, #free meta pages, overwrite-mapping keys, #metadata pages) " +
